@@ -36,12 +36,23 @@ fn pipeline_args(p: u8) -> Vec<String> {
         6 => &["--select=.=v", "--select=(size .)=n", "--output-style=csv"],
         7 => &["--select=.=v", "--output-style=text", "--headers"],
         8 => &["--merge"],
+        9 => &["--take=2"],
+        10 => &["--select=.=v", "--skip=1", "--take=1"],
+        11 => &["--sort-by=.", "--take=1"],
         _ => &[],
     };
     v.iter().map(|s| s.to_string()).collect()
 }
 fn streaming(p: u8) -> bool {
-    !matches!(p, 4 | 5 | 8)
+    !matches!(p, 4 | 5 | 8 | 11)
+}
+/// pipelines that legitimately stop reading after this many rows
+fn take_limit(p: u8) -> Option<usize> {
+    match p {
+        9 => Some(2),
+        10 => Some(1),
+        _ => None,
+    }
 }
 
 pub struct C16Faults;
@@ -63,7 +74,7 @@ impl Check for C16Faults {
             4 => Just(Vec::<BytesS>::new()),
             1 => vec(vec(garbage_byte(), 1..3).prop_map(BytesS), 1..3),
         ];
-        (vec(val, 0..7), vec(gap, 8), 0u8..4, 0u8..9, vec(1usize..9, 1..4), prop_oneof![Just(0usize), 2usize..5], 0usize..7)
+        (vec(val, 0..7), vec(gap, 8), 0u8..4, 0u8..12, vec(1usize..9, 1..4), prop_oneof![Just(0usize), 2usize..5], 0usize..7)
             .prop_map(|(values, mut noise, policy, pipeline, chunks, interrupt_every, kind_shift)| {
                 noise.truncate(values.len() + 1);
                 Case16 { values, noise, policy, pipeline, chunks, interrupt_every, kind_shift }
@@ -100,6 +111,12 @@ impl Check for C16Faults {
             }
             // under the panic policy the fault-free run may already fail before k: then either error is fine
             if o.res.is_ok() {
+                // --take: the run may be over before the failing byte is needed - then it is the
+                // complete fault-free output with the limit reached; anything else is a swallowed error
+                let legit = take_limit(case.pipeline).map(|t| o.stdout == ff.stdout && ff.stdout.split(|c| *c == b'\n').filter(|l| !l.is_empty() && !l.starts_with(b"error:")).count() == t).unwrap_or(false);
+                if legit {
+                    continue;
+                }
                 return fail(format!("read fault ({:?}) at byte {} was not reported: the run returned Ok (mistaken for end of input or skipped)", kind, k));
             }
             if streaming(case.pipeline) || true {
@@ -177,7 +194,7 @@ impl Check for C16Faults {
             Info::new(interior >= 2)
                 .weight(runs.saturating_sub(1))
                 .class(["policy:ignore", "policy:stdout", "policy:stderr", "policy:panic"][case.policy as usize])
-                .class(["pipe:none", "pipe:select", "pipe:filter", "pipe:unique", "pipe:sort", "pipe:group", "pipe:csv", "pipe:text+headers", "pipe:merge"][case.pipeline as usize])
+                .class(["pipe:none", "pipe:select", "pipe:filter", "pipe:unique", "pipe:sort", "pipe:group", "pipe:csv", "pipe:text+headers", "pipe:merge", "pipe:take", "pipe:select+skip+take", "pipe:sort+take"][case.pipeline as usize])
                 .class_if(case.interrupt_every > 0, "with_interrupted")
                 .class_if(!ff_ok, "fault_free_run_fails(panic policy + noise)")
                 .obs(json!({"input_len": input.len(), "stdout_len": ff.stdout.len(), "faulted_runs": runs, "interior_offsets": interior})),
